@@ -2,6 +2,7 @@ package pintcfg
 
 import (
 	"fmt"
+	"math"
 	"regexp"
 	"strings"
 
@@ -80,8 +81,10 @@ type Config struct {
 	// SinglePerturbed: the single-perturbation mode hit a value position.
 	SinglePerturbed bool
 	// Focused lists the focused sub-blocks: "<match|ignore>:<kinds in evaluation order>:<perturbed kind or ->".
-	Focused  []string
-	Excluded map[string]int
+	Focused []string
+	// FocusedValues lists the derived `values` checks: "<label|annotation>:n=<size>:<on|first|middle|last>".
+	FocusedValues []string
+	Excluded      map[string]int
 	// CheckKinds lists the configurable check kinds present in rule blocks.
 	CheckKinds []string
 }
@@ -128,6 +131,7 @@ var (
 	matchDurInvalid = []string{"<5m", "~ 5m", ">  5m", "> ", "== 5m", "> 5", "=> 5m", ">5 m", "> -5m"}
 	texts           = []string{"", "some comment", "see https://example.com/runbook", "{{ $alert }}", "`code` *md* [x](y)", "multi\nline", "%s %d", "${", "é日本", "{{", "\\"}
 	labelNames      = []string{"job", "instance", "severity", "team", "env", "a(b", "k[", "é", "", "{{ $alert }}", "le", "__name__"}
+	valueWords      = []string{"critical", "warning", "info", "page", "prod", "dev", "web", "api", "db", "team-a", "team-b", "x", "1", "2", "Foo", "node", "", "a(b", "{{ $alert }}", "é"}
 	valueLists      = [][]string{{"critical", "warning"}, {"prod"}, {}, {"a(b", "["}, {"{{ $alert }}"}, {""}, {"1", "2", "x"}}
 	checkNamesValid = []string{
 		"alerts/annotation", "alerts/comparison", "alerts/count", "alerts/for", "alerts/template", "alerts/external_labels", "alerts/absent",
@@ -244,8 +248,29 @@ func (x *g) regex(path string) string {
 	return v
 }
 
+// listSize draws the length of a list-valued option: small sizes mostly, and the boundary sizes
+// 0, 8, 9, 16 and 40 (code that treats long lists differently usually switches around such sizes).
+func (x *g) listSize(l string) int {
+	return rapid.SampledFrom([]int{1, 2, 0, 3, 8, 9, 16, 40}).Draw(x.t, x.lbl(l))
+}
+
+// words returns n distinct list members: pool members first, then generated ones.
+func (x *g) words(l string, pool []string, n int) []string {
+	out := make([]string, 0, n)
+	seen := map[string]bool{}
+	for i := 0; i < n; i++ {
+		w := x.pick(pool, l)
+		if seen[w] {
+			w = fmt.Sprintf("%s-%02d", w, i)
+		}
+		seen[w] = true
+		out = append(out, w)
+	}
+	return out
+}
+
 func (x *g) regexList(path string, maxN int) []string {
-	n := rapid.IntRange(0, maxN).Draw(x.t, x.lbl("nre"))
+	n := x.listSize("nre")
 	out := []string{}
 	for i := 0; i < n; i++ {
 		out = append(out, x.regex(path))
@@ -388,7 +413,7 @@ func (x *g) text(path string) Value {
 }
 
 func (x *g) checkNames(path string, maxN int) Value {
-	n := rapid.IntRange(0, maxN).Draw(x.t, x.lbl("ncn"))
+	n := x.listSize("ncn")
 	out := []string{}
 	for i := 0; i < n; i++ {
 		if x.invalid() {
@@ -643,6 +668,63 @@ func (x *g) focusedSelector(typ string) *Block {
 	return b
 }
 
+// focusedValuesRule builds a rule{} block (no selectors: it applies to every rule) with one rule/label or
+// alerts/annotation check whose key is derived from a real label / annotation of a target rule and whose
+// `values` list has a boundary size and a chosen relation to the rule's actual value: the value is on the
+// list, or off the list and sorting before / between / after every member; optionally with a `token`.
+func (x *g) focusedValuesRule() *Block {
+	var cands []Target
+	for _, t := range x.o.Targets {
+		if len(t.Labels) > 0 || (t.Alert && len(t.Anns) > 0) {
+			cands = append(cands, t)
+		}
+	}
+	if len(cands) == 0 {
+		return nil
+	}
+	tg := rapid.SampledFrom(cands).Draw(x.t, x.lbl("vtarget"))
+	kind, pool := "label", tg.Labels
+	if len(pool) == 0 || (tg.Alert && len(tg.Anns) > 0 && x.chance(1, 2)) {
+		kind, pool = "annotation", tg.Anns
+	}
+	kv := rapid.SampledFrom(pool).Draw(x.t, x.lbl("vkv"))
+	key := quoteRe(kv[0])
+	if x.chance(1, 4) {
+		key = ".*"
+	}
+	n := rapid.SampledFrom([]int{9, 2, 8, 1, 16, 40, 3}).Draw(x.t, x.lbl("vn"))
+	rel := x.pick([]string{"last", "on", "first", "middle"}, "vrel")
+	var list []string
+	for i := 0; i < n; i++ {
+		w := fmt.Sprintf("%s%02d", x.pick([]string{"web", "team", "prod", "a", "z"}, "vw"), i)
+		switch {
+		case rel == "last", (rel == "middle" || rel == "on") && i%2 == 0:
+			w = " " + w // sorts before (almost) any value
+		default:
+			w = "~~" + w // sorts after any ASCII value
+		}
+		list = append(list, w)
+	}
+	if rel == "on" {
+		list[x.intn(len(list))] = kv[1]
+	}
+	r := NewBlock("rule")
+	b := r.Add(NewBlock(kind, key))
+	b.Set("values", SL(list...))
+	if x.chance(1, 3) {
+		b.Set("token", S(x.pick([]string{`[^ ]+`, `\w+`, `.+`, `[^,]+`}, "vtoken")))
+	}
+	if x.chance(1, 2) {
+		b.Set("required", B(x.chance(1, 2)))
+	}
+	x.commentSeverity(b, "rule."+kind+".focusedvalues")
+	x.use("rule."+kind+".values", "valid", fmt.Sprintf("n=%d value-%s", n, rel))
+	x.cfg.FocusedValues = append(x.cfg.FocusedValues, fmt.Sprintf("%s:n=%d:%s", kind, n, rel))
+	x.cfg.CheckKinds = append(x.cfg.CheckKinds, kind)
+	x.cfg.HasRegexOpt = true
+	return r
+}
+
 func (x *g) commentSeverity(b *Block, path string) {
 	if x.optional(1, 3) {
 		b.Set("comment", x.text(path+".comment"))
@@ -663,6 +745,9 @@ func (x *g) annotationLike(kind string) *Block {
 	}
 	if x.optional(1, 4) {
 		vl := rapid.SampledFrom(valueLists).Draw(x.t, x.lbl("values"))
+		if x.chance(1, 2) {
+			vl = x.words("valuew", valueWords, x.listSize("nvalues"))
+		}
 		b.Set("values", SL(vl...))
 		x.use(p+".values", "valid", fmt.Sprint(vl))
 	}
@@ -727,10 +812,10 @@ func (x *g) ruleBlock() *Block {
 			b := r.Add(NewBlock(k, x.tregex("rule.aggregate.name")))
 			hasKeep := x.optional(3, 4)
 			if hasKeep {
-				b.Set("keep", SL(x.pick(labelNames, "keep")))
+				b.Set("keep", SL(x.words("keep", labelNames, x.listSize("nkeep"))...))
 			}
 			if x.optional(1, 2) || (!hasKeep && !x.invalid()) {
-				b.Set("strip", SL(x.pick(labelNames, "strip"), x.pick(labelNames, "strip2")))
+				b.Set("strip", SL(x.words("strip", labelNames, x.listSize("nstrip"))...))
 			}
 			x.commentSeverity(b, "rule.aggregate")
 		case "annotation", "label":
@@ -738,13 +823,13 @@ func (x *g) ruleBlock() *Block {
 		case "cost":
 			b := r.Add(NewBlock(k))
 			if x.optional(1, 2) {
-				b.Set("maxSeries", x.intVal("rule.cost.maxSeries", []int64{0, 1, 5000}))
+				b.Set("maxSeries", x.intVal("rule.cost.maxSeries", []int64{0, 1, 5000, math.MaxInt64}))
 			}
 			if x.optional(1, 3) {
-				b.Set("maxPeakSamples", x.intVal("rule.cost.maxPeakSamples", []int64{0, 1, 5000}))
+				b.Set("maxPeakSamples", x.intVal("rule.cost.maxPeakSamples", []int64{0, 1, 5000, math.MaxInt64}))
 			}
 			if x.optional(1, 3) {
-				b.Set("maxTotalSamples", x.intVal("rule.cost.maxTotalSamples", []int64{0, 1, 5000}))
+				b.Set("maxTotalSamples", x.intVal("rule.cost.maxTotalSamples", []int64{0, 1, 5000, math.MaxInt64}))
 			}
 			if x.optional(1, 3) {
 				b.Set("maxEvaluationDuration", x.str("rule.cost.maxEvaluationDuration", x.duration("rule.cost.maxEvaluationDuration")))
@@ -758,7 +843,7 @@ func (x *g) ruleBlock() *Block {
 			b.Set("step", x.str("rule.alerts.step", x.qdur("rule.alerts.step", []string{"1m", "5m", "1h", "0s", "90s"})))
 			b.Set("resolve", x.str("rule.alerts.resolve", x.duration("rule.alerts.resolve")))
 			if x.optional(1, 2) {
-				b.Set("minCount", x.intVal("rule.alerts.minCount", []int64{0, 1, 100}))
+				b.Set("minCount", x.intVal("rule.alerts.minCount", []int64{0, 1, 100, math.MaxInt64}))
 			}
 			x.commentSeverity(b, "rule.alerts")
 		case "reject":
@@ -857,7 +942,7 @@ func (x *g) tls(path string) *Block {
 }
 
 func (x *g) failover(path string) Value {
-	n := rapid.IntRange(1, 2).Draw(x.t, x.lbl("nfo"))
+	n := rapid.SampledFrom([]int{1, 2, 1, 0, 8, 9}).Draw(x.t, x.lbl("nfo"))
 	var out []string
 	for i := 0; i < n; i++ {
 		if x.chance(1, 3) {
@@ -894,7 +979,7 @@ func (x *g) promBody(b *Block, path string, templated bool) {
 		b.Set("failover", x.failover(path+".failover"))
 	}
 	if x.optional(1, 3) {
-		n := rapid.IntRange(0, 2).Draw(x.t, x.lbl("ntags"))
+		n := x.listSize("ntags")
 		var tags []string
 		for i := 0; i < n; i++ {
 			if x.invalid() || x.chance(1, 10) {
@@ -915,7 +1000,7 @@ func (x *g) promBody(b *Block, path string, templated bool) {
 		b.Set("concurrency", x.intVal(path+".concurrency", []int64{0, 1, 4, 16}))
 	}
 	if x.optional(1, 3) {
-		b.Set("rateLimit", x.intVal(path+".rateLimit", []int64{1000, 1000, 100, 0}))
+		b.Set("rateLimit", x.intVal(path+".rateLimit", []int64{1000, 1000, 100, 0, math.MaxInt32}))
 	}
 	if x.optional(1, 3) {
 		v := x.pick(uptimes[:3], "uptime")
@@ -972,7 +1057,7 @@ func Gen(t *rapid.T, o Opts) *Config {
 	if x.optional(1, 8) {
 		b := f.Add(NewBlock("ci"))
 		if x.optional(1, 2) {
-			b.Set("maxCommits", x.intVal("ci.maxCommits", []int64{1, 20, 50}))
+			b.Set("maxCommits", x.intVal("ci.maxCommits", []int64{1, 20, 50, math.MaxInt64}))
 		}
 		if x.optional(1, 2) {
 			b.Set("baseBranch", x.str("ci.baseBranch", x.pick([]string{"main", "master", "", "a(b"}, "bb")))
@@ -1183,6 +1268,12 @@ func Gen(t *rapid.T, o Opts) *Config {
 	cfg.NRules = nr
 	for i := 0; i < nr; i++ {
 		f.Add(x.ruleBlock())
+	}
+	if len(o.Targets) > 0 && x.chance(1, 3) {
+		if r := x.focusedValuesRule(); r != nil {
+			f.Add(r)
+			cfg.NRules++
+		}
 	}
 
 	// one structural defect
